@@ -25,7 +25,7 @@ def Q(entry, names, kf_only=None, **kw):
     for X, c in zip('ABC', cs):
         for k, v in c.items(): d['%s_%s' % (X, k)] = v
     name = '%s/%s' % (entry[2:], '/'.join(names))
-    excl = [KF_EQ]
+    excl = [KF_EQ, KF_PTR]
     if kf_only:
         excl = [k for k in excl if k != kf_only]; name += '/only:' + kf_only
     if MAN:
@@ -46,8 +46,15 @@ def queries(tier):
         for b in tc:
             for c in tc:
                 if q and len({a, b, c}) == 3: continue
+                np = sum(1 for x in (a, b, c) if x.startswith('P_'))
+                if np in (1, 2): continue          # mixed pointer / non-pointer triples: finding C15-ptr-right-operand (below)
                 qs.append(Q('h_trans', [a, b, c]))
+    for t in (['P_UI', 'P_UI', 'P_UI'], ['P_UI', 'P_S1', 'P_UI'], ['P_D', 'P_UI', 'P_A1'], ['P_S1', 'P_S2', 'P_S1']):
+        qs.append(Q('h_trans', t))
     # the finding itself: one pair per left kind that outranks the right one
     for a, b in (('NUL', 'UI'), ('D', 'I'), ('S1', 'A1'), ('UI', 'U'), ('T', 'S1')):
         qs.append(Q('h_pair', [a, b], kf_only=KF_EQ))
+    for a, b in (('UI', 'P_UI'), ('P_UI', 'UI'), ('P_S1', 'S1')):
+        qs.append(Q('h_pair', [a, b], kf_only=KF_PTR))
+    qs.append(Q('h_trans', ['UI', 'P_UI', 'UI'], kf_only=KF_PTR))
     return qs
